@@ -12,16 +12,128 @@ lose a reply, two front end instances with own clocks and own signed-head memory
 SignedHeadCoherent / FailedRequestLeavesNothing: whatever failed before, every STH served afterwards verifies
 (CTFESignDefect.cfg shows TLC finds the stale-signature behaviour when the model remembers a head before signing it).
 Concurrent runs are recorded as Inv / Call / Ret events and validated by CTFETrace.tla (see ctfe_common).
+
+The second observation point, a SHARED ctutil.LogInfo against the growing log (spec/client/LogInfoClient.tla): goroutines
+calling VerifyInclusion / VerifyInclusionLatest / VerifyInclusionAt / SetSTH / LastSTH / VerifySCTSignature on one LogInfo,
+each call as Begin / cache read / get-sth answered / store / get-proof-by-hash answered / Return, the cached STH replaced
+between any two steps, a log that grows, fails and lies.  NeverMissing (a certificate in the tree the call's STH describes,
+served the honest path, is reported included at its index whatever happened to the cache meanwhile), SoundIndex, CacheLaw
+(the cache is whatever was last set), FetchOnlyWhenNeeded; LogInfoClientDefect.cfg: with the root looked up in the cache
+when the path arrives TLC refutes NeverMissing.  Binding: harness/vt/c06 (go1.26 testing/synctest) replays simulated
+behaviours through gates in the http.RoundTripper under a real client.LogClient and validates free runs against
+LogInfoClientTrace.tla.
 """
+import os
 import json
 
 from props import ctfe_common
+from vlib import Infra
+
+ASSUME_LOGINFO = [
+    "shared LogInfo: the log behind it is the harness' own (honest RFC 6962 tree of harness/ref, STHs signed with a real ECDSA P-256 "
+    "or RSA-2048 key, get-proof-by-hash answered from the tree; it may answer 500, another path or another index) behind an "
+    "http.RoundTripper under the repository's client.LogClient; the LogInfo is built by NewLogInfo, by LogInfoByKeyHash or as a "
+    "literal; entries are X.509 and precertificate entries with opaque content (what the bytes decode to is EntryShapes.tla's subject)",
+    "shared LogInfo: the caller passes a leaf object that carries ANOTHER timestamp than the one passed (the documented adjustment "
+    "is part of every case); heads a caller brings in (SetSTH, VerifyInclusionAt) are the log's own up to its current size, heads of "
+    "the same sizes over other leaves, or none",
+    "shared LogInfo, replay regime: between two schedulable steps (a call begins, the log answers, the log grows) every goroutine "
+    "runs until it waits for the log or has returned (testing/synctest.Wait); the exhaustive TLC runs interleave the internal steps "
+    "freely, the free runs validated by LogInfoClientTrace.tla meet whatever the Go scheduler does under seeded virtual delays",
+    "shared LogInfo, NAMED CLAUSE FetchOnlyWhenNeeded: VerifyInclusionLatest asks for an STH only when none is cached and caches "
+    "the one it got; a failed get-sth leaves the cache alone.  NAMED CLAUSE HandedOutStable: an STH object handed out by LastSTH or "
+    "given to SetSTH / VerifyInclusionAt is never written to afterwards",
+]
+
+
+def loginfo(ctx, only=None):
+    """ctutil.LogInfo shared by several goroutines against the growing log: LogInfoClient.tla checked, simulated behaviours
+    replayed through gates, free runs validated by LogInfoClientTrace.tla."""
+    ctx.assumptions += ASSUME_LOGINFO
+    if only is not None:
+        path = ctx.write_ndjson("loginfo-replay.ndjson", [only])
+        ctx.go_test("vt/c06", run="TestReplay$", toolchain="go1.26", race=True, env={"VERIF_BEHAVIOURS": path}, name="loginfo-replay")
+        return
+    if os.environ.get("VERIF_C06_SKIP_MC") != "1":   # development aid for mutation runs: the model does not depend on /repo
+        # safety on every interleaving of the internal steps: two goroutines and two calls in the quick tier; liveness (fair
+        # goroutines, a server that answers), three calls and a longer log in the thorough tier (three goroutines: simulation)
+        small = ["-Xmx4g"]      # (small state spaces: a JVM that does not grow to the default heap on a shared machine)
+        ctx.tlc("client", "MCLogInfoClient", "LogInfoClientQuick.cfg", workers=4, timeout=1800, java_opts=small)
+        if ctx.thorough():
+            ctx.tlc("client", "MCLogInfoClient", "LogInfoClientLive.cfg", workers=4, timeout=1800, java_opts=small)
+            for cfg in ("LogInfoClientSmall.cfg", "LogInfoClientMid.cfg"):
+                ctx.tlc("client", "MCLogInfoClient", cfg, workers=8, timeout=3000, java_opts=small)
+        r = ctx.tlc("client", "MCLogInfoClient", "LogInfoClientDefect.cfg", workers=4, timeout=600, expect_violation=True, count=False,
+                    java_opts=small)
+        if r.violated != "NeverMissing":
+            raise Infra("LogInfoClientDefect.cfg: TLC did not refute NeverMissing in the model with the aliasing defect (the law would be vacuous)")
+    r = ctx.tlc("client", "MCLogInfoClient", "LogInfoClientSim.cfg", simulate=ctx.pick(400, 6000), depth=120, count=False)
+    behs = r.records.get("BEH", [])
+    if not behs:
+        raise Infra("LogInfoClientSim.cfg exported no behaviour")
+    path = ctx.write_ndjson("loginfo-behaviours.ndjson", [{"idx": i, "steps": b} for i, b in enumerate(behs)])
+    ctx.go_test("vt/c06", run="TestReplay$", toolchain="go1.26", race=True, env={"VERIF_BEHAVIOURS": path}, timeout=3000, name="loginfo-replay")
+    # free runs: the Go scheduler under seeded virtual delays, judged by the trace specification
+    before = len(ctx.violations)
+    _, outdir, reps = ctx.go_test("vt/c06", run="TestFree$", toolchain="go1.26", race=True, timeout=3000, name="loginfo-free",
+                                  env={"VERIF_TRACES": ctx.pick(40, 400), "VERIF_CALLS": ctx.pick(6, 8)})
+    tr = os.path.join(outdir, "loginfo-traces.ndjson")
+    if not reps and len(ctx.violations) > before:
+        return      # the run itself ended in a verdict (data race, crash inside the repository code): there is no trace to judge
+    if not os.path.exists(tr) or os.path.getsize(tr) == 0:
+        raise Infra("no LogInfo trace recorded")
+    lines = open(tr).read().splitlines()
+    n = sum(1 for line in lines if '"ev":"Reset"' in line)
+    r = ctx.tlc("client", "LogInfoClientTrace", "LogInfoClientTrace.cfg", workers=1, env={"TRACE_FILE": tr}, count=False, check=False,
+                timeout=3000, label="loginfo-trace", dfs=True)
+    stuck = r.records.get("STUCK", [])
+    if r.rc != 0 and not stuck and not r.violated:
+        raise Infra("LogInfo trace validation failed to run (rc=%d)\n%s" % (r.rc, "\n".join(r.out.splitlines()[-25:])))
+    if stuck or r.violated:
+        at = stuck[0]["line"] if stuck else len(lines)
+        ev = stuck[0]["event"] if stuck else {}
+        names = {"VI": "VerifyInclusion", "VIL": "VerifyInclusionLatest", "VIAt": "VerifyInclusionAt", "Set": "SetSTH",
+                 "Last": "LastSTH", "SCT": "VerifySCTSignature"}
+        if ev.get("ev") == "Return":
+            fp = "trace:Return:%s:%s" % (names.get(ev.get("m"), ev.get("m")), "included" if ev.get("ok") else "error")
+            what = ("free run: %s of goroutine %s returned %s (index %s, head %s); no placement of the unobservable steps (cache read, "
+                    "store, SetSTH / LastSTH effect) makes that the verdict LogInfoClient.tla gives for what the log served to this call"
+                    % (names.get(ev.get("m")), ev.get("g"), "success" if ev.get("ok") else "an error", ev.get("idx"), ev.get("sth")))
+        elif ev.get("ev") == "Serve":
+            fp = "trace:Serve:%s:%s" % (ev.get("kind"), ev.get("eff"))
+            what = ("free run: the log received a %s request of goroutine %s (size %s, certificate %s) that the call, as specified, "
+                    "does not make in any placement of the unobservable steps" % (ev.get("kind"), ev.get("g"), ev.get("size"), ev.get("cert")))
+        else:
+            fp = "trace:%s" % (ev.get("ev") or r.violated)
+            what = "free run: the recorded history is not a behaviour of LogInfoClient.tla (%s)" % (ev or r.violated)
+        ctx.violation("C06:loginfo:" + fp, what, {"stuck": stuck, "violated": r.violated, "trace_window": lines[max(0, at - 60):at + 1]})
+    else:
+        ctx.traces += n
 
 
 def run(ctx, replay=None):
     if replay:
         with open(replay) as f:
-            beh = json.load(f)["replay"]["behaviour"]
+            doc = json.load(f)
+        rp = doc.get("replay")
+        rp = rp if isinstance(rp, dict) else {}
+        fp = str(doc.get("fingerprint", ""))
+        if "loginfo_behaviour" in rp:
+            loginfo(ctx, only=rp["loginfo_behaviour"])
+            return
+        if fp.startswith("C06:loginfo:") or "ctutil" in fp:
+            ctx.log("the replay file carries a free-run verdict of the shared LogInfo; running that part of the check")
+            os.environ["VERIF_C06_SKIP_MC"] = "1"
+            loginfo(ctx)
+            return
+    if not replay and os.environ.get("VERIF_C06_ONLY") == "loginfo":     # development aid: the shared-LogInfo part alone
+        loginfo(ctx)
+        return
+    if replay and "behaviour" not in rp:
+        ctx.log("the replay file carries no behaviour; running the whole check")
+        replay = None
+    if replay:
+        beh = rp["behaviour"]
         path = ctx.write_ndjson("replay.ndjson", [beh])
     else:
         behs = ctfe_common.model_and_behaviours(ctx, 1500, 30000)
@@ -35,6 +147,8 @@ def run(ctx, replay=None):
     # concurrent clients of two front ends under -race, staged overlaps with failing backend calls: Inv / Call / Ret
     # histories validated by CTFETrace.tla (backend call order = linearization order)
     ctfe_common.concurrent_traces(ctx, "C06")
+    # one ctutil.LogInfo shared by several goroutines against the growing log (the second observation point)
+    loginfo(ctx)
     # the certificate token of CTFE.tla opened: what the stored entry decodes to, per shape of submission
     ctfe_common.entry_shapes(ctx, "C06")
     # every entry stays served when issuance chains live outside the backend, across storage faults and cold caches
